@@ -24,6 +24,15 @@ SUMMARY = {
  "C20a": "RevertMetaPage swaps the two results of GetRootPage (always copies meta 0 over meta 1)",
  "C02b": "shared.Rollback restores aborted frees as allocated by the rolled-back txid (pages released while an older reader is open)",
  "C17a": "flock returns nil when the timeout elapses (shadowed err)",
+ "C05b": "Cursor.prev no longer repositions with first() when it runs off the beginning (cursor left on an emptied leading leaf)",
+ "C01b": "ReleasePendingPages moved from beginRWTx to the start of Commit (pages freed by DeleteBucket in this very transaction are reused and overwritten before the meta write)",
+ "C03b": "removeTx merges statistics under statlock.RLock instead of Lock (data race on OpenTxN / Stats())",
+ "C04b": "MoveBucket drops the cached child before the destination checks (a move that fails on a name clash discards the bucket's same-transaction edits)",
+ "C08b": "commitFreelist no longer rolls the transaction back when allocating the freelist page fails (writer lock stays held, pages leak)",
+ "C12b": "WriteTo computes the meta checksum once: meta 1 of every copy carries meta 0's checksum",
+ "C17b": "Open no longer closes (unlocks) the file when getPageSize fails: a failed open of a < 2 KiB file keeps the flock",
+ "C19b": "page type predicates test a bit instead of the exact value (invalid types containing the expected bit pass the check)",
+ "C07b": "",
 }
 rows = []
 for d in sorted(glob.glob("/verif/seeded/*/meta.json")):
